@@ -1,0 +1,99 @@
+//go:build verif
+
+package kcp
+
+import "time"
+
+// VerifSeg is a flat copy of a segment.
+type VerifSeg struct {
+	Conv                                uint32
+	Cmd, Frg                            uint8
+	Wnd                                 uint16
+	Ts, Sn, Una                         uint32
+	Rto, Xmit, Resendts, Fastack, Acked uint32
+	Data                                []byte
+	DataNil                             bool
+}
+
+// VerifKCPDump is a flat copy of every field of the protocol core.
+type VerifKCPDump struct {
+	Conv, Mtu, Mss, State               uint32
+	SndUna, SndNxt, RcvNxt              uint32
+	Ssthresh                            uint32
+	RxRttvar, RxSrtt                    int32
+	RxRto, RxMinrto                     uint32
+	SndWnd, RcvWnd, RmtWnd, Cwnd, Incr  uint32
+	Probe, TsProbe, ProbeWait           uint32
+	Interval, TsFlush, Nodelay, Updated uint32
+	DeadLink                            uint32
+	Fastresend, Nocwnd, Stream          int32
+	SndQueue, RcvQueue, SndBuf, RcvBuf  []VerifSeg
+	AckSn, AckTs                        []uint32
+	BufLen                              int
+}
+
+func verifSeg(s *segment) VerifSeg {
+	return VerifSeg{s.conv, s.cmd, s.frg, s.wnd, s.ts, s.sn, s.una, s.rto, s.xmit, s.resendts, s.fastack, s.acked,
+		append([]byte(nil), s.data...), s.data == nil}
+}
+
+// VerifKCPState copies the whole state of a core (rcv_buf in heap-array order).
+func VerifKCPState(k *KCP) VerifKCPDump {
+	d := VerifKCPDump{
+		Conv: k.conv, Mtu: k.mtu, Mss: k.mss, State: k.state,
+		SndUna: k.snd_una, SndNxt: k.snd_nxt, RcvNxt: k.rcv_nxt,
+		Ssthresh: k.ssthresh, RxRttvar: k.rx_rttvar, RxSrtt: k.rx_srtt, RxRto: k.rx_rto, RxMinrto: k.rx_minrto,
+		SndWnd: k.snd_wnd, RcvWnd: k.rcv_wnd, RmtWnd: k.rmt_wnd, Cwnd: k.cwnd, Incr: k.incr,
+		Probe: k.probe, TsProbe: k.ts_probe, ProbeWait: k.probe_wait,
+		Interval: k.interval, TsFlush: k.ts_flush, Nodelay: k.nodelay, Updated: k.updated,
+		DeadLink: k.dead_link, Fastresend: k.fastresend, Nocwnd: k.nocwnd, Stream: k.stream,
+		BufLen: len(k.buffer),
+	}
+	for s := range k.snd_queue.ForEach {
+		d.SndQueue = append(d.SndQueue, verifSeg(s))
+	}
+	for s := range k.rcv_queue.ForEach {
+		d.RcvQueue = append(d.RcvQueue, verifSeg(s))
+	}
+	for s := range k.snd_buf.ForEach {
+		d.SndBuf = append(d.SndBuf, verifSeg(s))
+	}
+	for i := range k.rcv_buf.segments {
+		d.RcvBuf = append(d.RcvBuf, verifSeg(&k.rcv_buf.segments[i]))
+	}
+	for _, a := range k.acklist {
+		d.AckSn = append(d.AckSn, a.sn)
+		d.AckTs = append(d.AckTs, a.ts)
+	}
+	return d
+}
+
+// VerifKCPShift starts a fresh core at arbitrary sequence-number offsets.
+func VerifKCPShift(k *KCP, snd, rcv uint32) {
+	k.snd_una, k.snd_nxt, k.rcv_nxt = snd, snd, rcv
+}
+
+// VerifKCPSetStream sets stream mode on a raw core (sessions use SetStreamMode).
+func VerifKCPSetStream(k *KCP, on bool) {
+	if on {
+		k.stream = 1
+	} else {
+		k.stream = 0
+	}
+}
+
+// VerifKCPFlush calls the unexported flush.
+func VerifKCPFlush(k *KCP, full bool) uint32 {
+	if full {
+		return k.flush(IKCP_FLUSH_FULL)
+	}
+	return k.flush(IKCP_FLUSH_ACKONLY)
+}
+
+// VerifSetClock makes currentMs() return ms at the current (possibly virtual) instant.
+func VerifSetClock(ms uint32) {
+	refTime = time.Now().Add(-time.Duration(ms) * time.Millisecond)
+}
+
+// VerifCurrentMs reads the package clock.
+func VerifCurrentMs() uint32 { return currentMs() }
